@@ -231,6 +231,7 @@ type c12Env struct {
 	tables    map[string]map[int]fakecluster.VR // address -> advertised table
 	addrOf    map[int32]string                  // live brokers: id -> current address
 	hostOf    map[int32]string
+	portOf    map[int32]int32 // ports other than 9092 (re-addressed brokers)
 	ids       []int32 // live broker ids
 	bootIDs   map[int32]bool
 	topics    []c12TopicCfg
@@ -310,8 +311,17 @@ func (e *c12Env) coordOf(typ int, key string) (int32, string) {
 	return id, e.hostOf[id]
 }
 
+func (e *c12Env) portOfBroker(id int32) int32 {
+	e.cmu.Lock()
+	defer e.cmu.Unlock()
+	if p := e.portOf[id]; p != 0 {
+		return p
+	}
+	return 9092
+}
+
 func c12Run(k *core.Case, cfg c12Cfg, r *core.Rand) *c12Env {
-	e := &c12Env{k: k, cfg: cfg, net: fakenet.New(), tables: map[string]map[int]fakecluster.VR{}, addrOf: map[int32]string{}, hostOf: map[int32]string{},
+	e := &c12Env{k: k, cfg: cfg, net: fakenet.New(), tables: map[string]map[int]fakecluster.VR{}, addrOf: map[int32]string{}, hostOf: map[int32]string{}, portOf: map[int32]int32{},
 		bootIDs: map[int32]bool{}, leaders: map[string]int32{}, coord: map[string]int32{}, coordLog: map[string][]c12CoordChange{}, kinds: map[string]bool{}}
 	e.cl = fakecluster.New(e.net)
 	for i := range cfg.Brokers {
@@ -361,7 +371,7 @@ func c12Run(k *core.Case, cfg c12Cfg, r *core.Rand) *c12Env {
 				resp["ErrorCode"] = int64(0)
 				resp["NodeId"] = int64(id)
 				resp["Host"] = host
-				resp["Port"] = int64(9092)
+				resp["Port"] = int64(e.portOfBroker(id))
 			}}
 		case fakecluster.KMetadata, fakecluster.KApiVersions, fakecluster.KProduce, fakecluster.KFetch, fakecluster.KListOffsets,
 			fakecluster.KCreateTopics, fakecluster.KDeleteTopics, fakecluster.KOffsetCommit, fakecluster.KOffsetFetch:
@@ -629,16 +639,31 @@ func (e *c12Env) applyEvent(r *core.Rand, kind string) {
 	case "broker-readdress":
 		id := e.ids[r.Intn(len(e.ids))]
 		e.readdr++
-		host := fmt.Sprintf("b%dr%d", id, e.readdr)
+		// the broker keeps its id and re-registers on a new host, on a new port of the same host, or both
+		mode := core.Pick(r, "host", "port", "both")
+		e.cmu.Lock()
+		host := e.hostOf[id]
+		e.cmu.Unlock()
+		port := e.portOfBroker(id)
+		if mode != "port" {
+			host = fmt.Sprintf("b%dr%d", id, e.readdr)
+		}
+		if mode != "host" {
+			port = 9092 + int32(e.readdr)
+		}
 		t := e.tables[e.addrOf[id]]
 		if r.Bool() {
 			t, _ = c12GenTable(r, "mixed")
 		}
-		br := e.cl.AddBrokerAt(id, host, 9092, "", t)
+		br := e.cl.AddBrokerAt(id, host, port, "", t)
 		e.tables[br.Addr()] = t
 		e.addrOf[id] = br.Addr()
+		e.cmu.Lock()
+		e.portOf[id] = port
+		e.cmu.Unlock()
 		e.setBroker(id, host, e.ids)
 		e.kinds[kind] = true
+		e.kinds[kind+":"+mode] = true
 	case "topic-create":
 		e.created++
 		name := fmt.Sprintf("new-%d", e.created)
